@@ -23,7 +23,7 @@ EXPLANATION = (
     'reset; (i) the JSON text is ASCII-safe for every file encoding.  Value-'
     'level round-trip equality is not decided.')
 FLOORS = {'C05.a': 12, 'C05.b': 1, 'C05.c': 1, 'C05.d': 1, 'C05.e': 1,
-          'C05.f': 2, 'C05.g': 1, 'C05.h': 1, 'C05.i': 1, 'C05.j': 1, 'C05.k': 1}
+          'C05.f': 2, 'C05.g': 1, 'C05.h': 1, 'C05.i': 1, 'C05.j': 1, 'C05.k': 1, 'C05.l': 5}
 FILES = ['pyglove/core/utils/json_conversion.py', 'pyglove/core/symbolic/base.py',
          'pyglove/core/symbolic/object.py', 'pyglove/core/symbolic/dict.py',
          'pyglove/core/symbolic/list.py', 'pyglove/core/typing/value_specs.py',
@@ -547,6 +547,57 @@ def rule_k(ctx):
   ctx.ob('C05.k', f.fq + '#untyped', ok, 'an untyped Dict serializes every item except the excluded keys', f.loc, why)
 
 
+CONSUMING = ('pop', 'popitem', 'clear', 'update', 'setdefault', 'remove', 'append', 'extend', 'insert', 'sort', 'reverse')
+COPIERS_L = ('dict', 'list', 'copy.copy', 'copy.deepcopy')
+
+
+def rule_l(ctx):
+  """Loading does not consume what it loads from: a `from_json` never removes
+  or rewrites entries of the JSON value it was handed (only of a copy), so the
+  same in-memory JSON value can be loaded again with the same result."""
+  idx = ctx.index
+  n = 0
+  for f in idx.all_funcs():
+    if f.name != 'from_json' or '<locals>' in f.qualname:
+      continue
+    ps = A.param_names(f.node)
+    jp = [p for p in ps if p in ('json_value', 'json_dict', 'value', 'json')]
+    if not jp:
+      continue
+    g = C.cfg_of(f.node)
+    n += 1
+    bad = []
+    for k in g.nodes:
+      if k.ast is None:
+        continue
+      muts = []
+      for c in k.calls():
+        if isinstance(c.func, ast.Attribute) and c.func.attr in CONSUMING and isinstance(c.func.value, ast.Name) \
+            and c.func.value.id in jp:
+          muts.append((c.func.value.id, A.unparse(c, 60)))
+      if k.kind == 'stmt' and isinstance(k.ast, (ast.Assign, ast.AugAssign, ast.Delete)):
+        tg = k.ast.targets if not isinstance(k.ast, ast.AugAssign) else [k.ast.target]
+        for t in tg:
+          if isinstance(t, ast.Subscript) and isinstance(t.value, ast.Name) and t.value.id in jp:
+            muts.append((t.value.id, A.unparse(k.ast, 60)))
+      for nm, txt in muts:
+        # still the caller's object here?  (no re-binding to a copy reaches this point)
+        for dn, val in D.reaching_defs(g, k, nm):
+          if val is None:
+            bad.append(f'`{txt}` (line {k.lineno})')
+            break
+          copied = isinstance(val, ast.Call) and ((A.call_name(val) or '') in COPIERS_L or (A.call_name(val) or '').endswith('.copy'))
+          if not copied and nm in A.names_read(val):
+            bad.append(f'`{txt}` (line {k.lineno})')
+            break
+    ctx.ob('C05.l', f.fq, not bad,
+           'from_json does not modify the JSON value it is given (it works on a copy when it needs to remove keys)',
+           f.loc, 'the caller\'s JSON value is consumed: ' + ', '.join(bad) +
+           ' - loading the same value again gives a different result (a plain dict instead of the object)')
+  if n < 5:
+    raise AnalysisError(f'only {n} from_json functions found')
+
+
 def rule_j(ctx):
   """Record framing of the line sequence: the writer terminates every record
   with one newline after removing trailing newlines; the reader removes that
@@ -606,4 +657,5 @@ def run(ctx):
   rule_i(ctx)
   rule_j(ctx)
   rule_k(ctx)
+  rule_l(ctx)
   ctx.assume('injectivity of the encoding over the value space and pg.eq after a round trip are not decided')
